@@ -437,6 +437,8 @@ class ChangeScenario(Scenario):
             return ()
         if env.counters.get('faults', 0) >= self.params.get('max_faults', 1):
             return ()
+        if self.params.get('fault_methods') and req.method not in self.params['fault_methods']:
+            return ()
         if req.method == 'patch' or self.params.get('fault_all'):
             return [f for f in allowed if not (f == 'lost' and req.state != 'new')] if req.state == 'new' else ()
         return ()
